@@ -95,6 +95,9 @@ def build_dataclass(term, reg: Registry):
         own_fields = [f for f in fields if f[0] not in inherited or f[0] in redecl]
     if not bases:
         bases = (base,) if base is not None else ()
+    gparams = get_opt(cfg, "generic_params")
+    if gparams:
+        bases = bases + (typing.Generic[tuple(concretize_type(["tvar", p], reg) for p in gparams)],)
 
     pyname = reg._pyname(name)
     ann: dict[str, Any] = {}
@@ -178,7 +181,7 @@ def build_dataclass(term, reg: Registry):
         elif k == "classvars":
             for cv, val in o[1]:
                 ns[cv] = concretize_value(val, reg)
-        elif k in ("mixin", "bases", "redeclared", "sorted_idx", "discr_field", "hooks", "slots", "frozen", "no_config"):
+        elif k in ("mixin", "bases", "redeclared", "sorted_idx", "discr_field", "hooks", "slots", "frozen", "no_config", "generic_params"):
             pass
         else:
             raise BridgeError(f"unknown cfg option {k}")
@@ -190,7 +193,11 @@ def build_dataclass(term, reg: Registry):
         from harness.hooks import add_hooks
         add_hooks(ns, name, hooks, reg)
 
-    cls = type(pyname, bases, ns)
+    if gparams:
+        import types as _types
+        cls = _types.new_class(pyname, bases, {}, lambda n: n.update(ns))
+    else:
+        cls = type(pyname, bases, ns)
     reg._register(cls, name, term)     # register BEFORE dataclass() so self-references resolve
     dc_kwargs = {}
     if get_opt(cfg, "frozen", False):
